@@ -217,10 +217,58 @@ def run_injected(unit: str, repo: str, scratch: str, tier: str):
     return obls, info
 
 
+def run_solver_msg(repo: str, scratch: str, tier: str):
+    from engine.driver import Obligation
+    from vx.extract import AnchorError
+    sys.path.insert(0, os.path.join(VERIF, "kl"))
+    import gen_solver_msg
+    crate = os.path.join(scratch, "solver_msg")
+    shutil.copytree(os.path.join(VERIF, "kl", "solver_msg"), crate, dirs_exist_ok=True)
+    n = 8 if tier == "quick" else 16
+    unit = "solver_msg"
+    try:
+        text, names = gen_solver_msg.gen(repo, n)
+    except (AnchorError, Exception) as e:
+        return [Obligation(f"kl:{unit}:<build>", "KL", unit, "<build>", "undecided", "extractor", detail={"reason": f"{type(e).__name__}: {e}"})], \
+               {"unit": unit, "engine": "KL", "checker_cmd": "n/a", "wall_s": 0}
+    os.makedirs(os.path.join(crate, "src"), exist_ok=True)
+    open(os.path.join(crate, "src", "lib.rs"), "w").write(text)
+    tgt = os.environ.get("VERIF_KANI_TARGET", "/var/tmp/patronus-verif-kani-target")
+    os.makedirs(tgt, exist_ok=True)
+    os.environ["CARGO_TARGET_DIR"] = tgt
+    res, raw, dt = run_kani(crate, None, jobs=min(len(names), int(os.environ.get("VERIF_KANI_JOBS", "10"))), timeout_s=1200 if tier == "quick" else 7200)
+    obls = []
+    for nm in names:
+        key = next((k for k in res if k.endswith("::" + nm) or k == nm), None)
+        r = res.get(key) if key else None
+        oid = f"kl:{unit}:{nm}"
+        if r is None or r["status"] in (None, "TOOL"):
+            obls.append(Obligation(oid, "KL", unit, nm, "undecided", "kani/cbmc+cadical", (r or {}).get("time_s") or 0.0,
+                                   detail={"reason": "no result (timeout / out of memory / build failure)", "raw": raw[-1500:] if r is None else "\n".join(r["raw"][-8:])}, kind="bounded"))
+        elif r["status"] == "SUCCESSFUL":
+            obls.append(Obligation(oid, "KL", unit, nm, "discharged", "kani/cbmc+cadical", r["time_s"] or 0.0, kind="bounded", src="patronus/src/smt/solver.rs (read_response, error branch)"))
+        else:
+            fc = r["failed_checks"]
+            if fc and all("unwinding assertion" in x for x in fc):
+                obls.append(Obligation(oid, "KL", unit, nm, "undecided", "kani/cbmc+cadical", r["time_s"] or 0.0, detail={"reason": "unwinding bound too small", "failed_checks": fc}, kind="bounded"))
+            else:
+                obls.append(Obligation(oid, "KL", unit, nm, "failed", "kani/cbmc+cadical", r["time_s"] or 0.0,
+                                       detail={"errors": [{"message": x} for x in fc] or [{"message": "Kani: VERIFICATION FAILED"}]}, kind="bounded",
+                                       src="patronus/src/smt/solver.rs (read_response, error branch)"))
+    info = {"unit": unit, "engine": "KL", "harnesses": len(names), "wall_s": round(dt, 1),
+            "bound": f"message length <= {n} bytes, printable ASCII, no leading/trailing blank; contents symbolic",
+            "checker_cmd": "cargo kani -j N --output-format terse   (crate generated by kl/gen_solver_msg.py from the text of read_response)"}
+    return obls, info
+
+
 def run_kl(prop: str, units: List[str], repo: str, scratch: str, tier: str):
     obls, infos = [], []
     for u in units:
-        if u == "baa_kernels":
+        if u == "solver_msg":
+            o, i = run_solver_msg(repo, scratch, tier)
+            obls += o
+            infos.append(i)
+        elif u == "baa_kernels":
             o, i, _ = run_baa_kernels(repo, scratch, tier)
             obls += o
             infos.append(i)
